@@ -208,10 +208,17 @@ def interleave_check(sc):
     exprs = [b.steps(p) for p in sc["paths"]]
     # iterator i uses expression sc["uses"][i][0] on document sc["uses"][i][1]
     fns = {"find": find, "find_matches": find_matches}
+    srcs = list(docs)
+    if sc.get("from_match") is not None:
+        # all iterators start from one and the same Match object of document 0
+        ms = list(itertools.islice(find_matches(b.steps(sc["from_match"]), docs[0]), 1))
+        if not ms:
+            return None, False
+        srcs = [ms[0] for _ in docs]
     solo = []
     for (pi, di, api) in sc["uses"]:
-        solo.append(_steps(fns[api](exprs[pi], docs[di]), sc["calls"]))
-    its = [fns[api](exprs[pi], docs[di]) for (pi, di, api) in sc["uses"]]
+        solo.append(_steps(fns[api](exprs[pi], srcs[di]), sc["calls"]))
+    its = [fns[api](exprs[pi], srcs[di]) for (pi, di, api) in sc["uses"]]
     got = [[] for _ in its]
     order = []
     for i in range(len(its)):
@@ -254,8 +261,15 @@ def interleave_oracle(ctx):
         paths.append(base + ext)
         uses = [(rng.randrange(len(paths)), rng.randrange(ndocs), rng.choice(["find", "find_matches"]))
                 for _ in range(rng.randint(2, 5))]
-        return {"docs": [enc(d) for d in docs], "paths": paths, "uses": uses, "calls": rng.randint(2, 9),
-                "seed": rng.randrange(1 << 30)}
+        sc = {"docs": [enc(d) for d in docs], "paths": paths, "uses": uses, "calls": rng.randint(2, 9),
+              "seed": rng.randrange(1 << 30)}
+        if rng.random() < 0.3:
+            # several live searches from one Match object, starting with fan-out steps
+            sc["from_match"] = pg.gen_path([docs[0]], maxlen=2, minlen=0)
+            sc["paths"] = [[rng.choice([["gwc"], ["wc"], ["iwc"], ["rec"], ["s", None, None, None]])] + p[:2] for p in paths]
+            while any(p[0][0] == "rec" and len(p) > 1 and p[1][0] == "rec" for p in sc["paths"]):
+                sc["paths"] = [[p[0]] + [x for x in p[1:] if x[0] != "rec"] for p in sc["paths"]]
+        return sc
     _run(ctx, "interleave", 400, 12000, make, interleave_check)
 
 
@@ -622,6 +636,60 @@ def match_truth_oracle(ctx):
             sc["path"] = [s for s in sc["path"] if s[0] in ("k", "i")][:rng.randint(0, 2)]
         return {"doc": sc["doc"], "path": sc["path"], "src": sc.get("src")}
     _run(ctx, "match_truth", 1200, 30000, make, match_truth_check)
+
+
+def eq_after_change_check(sc):
+    """two Match objects compare equal iff their chains carry the same names and equal data at every level —
+    also for matches taken before and after an inner container was replaced by a different container
+    that holds the same leaf under the same names"""
+    doc = dec(sc["doc"])
+    expr = Builder([]).steps(sc["path"])
+    before = list(itertools.islice(find_matches(expr, doc), 20))
+    deep = [m for m in before if len(m.path_match_list) >= 3]
+    if not deep:
+        return None, False
+    victim = deep[sc["pick"] % len(deep)]
+    chain = victim.path_match_list
+    inner = chain[1 + sc["level"] % (len(chain) - 2)]          # strictly between root and leaf
+    child_name = chain[chain.index(inner) + 1].data_name if inner is not chain[-1] else None
+    old = inner.data
+    if isinstance(old, dict):
+        new = dict(old)
+        new["__extra__"] = 1
+    elif isinstance(old, list):
+        new = list(old) + ["__extra__"]
+    else:
+        return None, False
+    inner.data = new                     # the public setter: the document now holds `new` there
+    after = list(itertools.islice(find_matches(expr, doc), 20))
+    def parent_chain(m):
+        # what == is specified over: the match, its .parent, that one's .parent, ... (after an assignment through
+        # a Match the bookkeeping matches of a filter / rec keep their own cached data, so this chain — not
+        # path_match_list — is the one the statement's "chains" can mean for matches taken before the change)
+        out = []
+        while m is not None:
+            out.append(m)
+            m = m.parent
+        return out
+    for a in before:
+        for b_ in after:
+            la, lb = parent_chain(a), parent_chain(b_)
+            want = len(la) == len(lb) and all(x.data_name == y.data_name and x.data == y.data for x, y in zip(la, lb))
+            if (a == b_) != want or (a != b_) == want:
+                return (f"{a.path_as_str} (taken before {inner.path_as_str} was replaced) == {b_.path_as_str} (after) gives "
+                        f"{a == b_}, the chains say {want}"), True
+    return None, True
+
+
+def eq_after_change_oracle(ctx):
+    def make(rng):
+        sc = gen.gen_query(rng, "child", api="find_matches", with_src=False, maxlen=4)
+        d = dec(sc["doc"])
+        if not isinstance(d, (dict, list)) or rng.random() < 0.5:
+            d = {"a": {"b": {"c": 1, "d": [1, 2]}, "e": [{"c": 1}]}, "x": d}
+            sc["path"] = rng.choice([[["k", "a"], ["k", "b"], ["gwc"]], [["k", "a"], ["gwc"], ["gwc"]], [["rec"], ["k", "c"]]])
+        return {"doc": enc(d), "path": sc["path"], "pick": rng.randrange(8), "level": rng.randrange(4)}
+    _run(ctx, "eq_after_change", 300, 8000, make, eq_after_change_check)
 
 
 def match_eq_oracle(ctx):
